@@ -240,6 +240,16 @@ func (reg *Reg) ManifestPut(ctx context.Context, r ref.Ref, m manifest.Manifest,
 		return fmt.Errorf("error marshalling manifest for %s: %w", r.CommonName(), err)
 	}
 
+	if r.Digest != "" && m.GetDescriptor().Digest.String() != r.Digest {
+		// The reference names the manifest by another digest (algorithm) than the manifest object carries.
+		// The registry stores it under the digest of the reference, recreate the manifest with that ref so the
+		// cache and the referrers fallback tag record that digest. This fails if the digest does not match the body.
+		m, err = manifest.New(manifest.WithRef(r), manifest.WithRaw(mj))
+		if err != nil {
+			return fmt.Errorf("failed rebuilding manifest with ref \"%s\": %w", r.CommonName(), err)
+		}
+	}
+
 	// limit length
 	if reg.manifestMaxPush > 0 && int64(len(mj)) > reg.manifestMaxPush {
 		return fmt.Errorf("manifest too large, calculated %d, limit %d: %s%.0w", len(mj), reg.manifestMaxPush, r.CommonName(), errs.ErrSizeLimitExceeded)
